@@ -45,15 +45,19 @@ def hints (lines : List Bytes) : Nat × Nat × Nat :=
   let ls := lines.take 100
   ((ls.map fastaHint).sum, (ls.map (countHints msfHints)).sum, (ls.map (countHints cluHints)).sum)
 
-/-- FORMAT_DETECT_FAIL = -1, FORMAT_FA = 1, FORMAT_MSF = 2, FORMAT_CLU = 3.  The assignments are the C ones in order:
-`set == 0` and `set > 1` store -1, then each non-zero hint overwrites (fasta < msf < clu). -/
+/-- what a single line says about the format: a line starting with '>' is a FASTA record header; otherwise a Clustal title, otherwise an MSF
+header line (the `if / else if` chain that sets `first_hint` in the C code) -/
+def lineKind (l : Bytes) : Option Int :=
+  if fastaHint l ≠ 0 then some 1
+  else if countHints cluHints l ≠ 0 then some 3
+  else if countHints msfHints l ≠ 0 then some 2
+  else none
+
+/-- FORMAT_DETECT_FAIL = -1, FORMAT_FA = 1, FORMAT_MSF = 2, FORMAT_CLU = 3.  The first of the first 100 lines that carries a hint decides
+(`first_hint`); no hint at all (`set == 0`) is FORMAT_DETECT_FAIL.  (Before the repair every non-zero hint overwrote: fasta < msf < clu, so a
+FASTA description or a residue line containing "CLUSTAL W" turned the file into a Clustal file.) -/
 def detectFormat (lines : List Bytes) : Int :=
-  let (h0, h1, h2) := hints lines
-  let t : Int := -1
-  let t := if h0 ≠ 0 then 1 else t
-  let t := if h1 ≠ 0 then 2 else t
-  let t := if h2 ≠ 0 then 3 else t
-  t
+  ((lines.take 100).findSome? lineKind).getD (-1)
 
 /-! ## sequences -/
 
